@@ -540,8 +540,7 @@ fn g_value_of(rng: &mut Rng, k: u64, allow_zero_float: bool) -> V {
         _ => V::Timestamp(g_i64(rng)),
     }
 }
-/// `zero_floats`: whether Float(+-0.0) may appear (the recorded finding's class); kept to a
-/// minority of the rows so that the run stays sensitive outside the class
+/// `zero_floats`: whether Float(+-0.0) may appear (the class of the former finding F-C33-1)
 fn g_row(rng: &mut Rng, nvariants: u64, zero_floats: bool) -> Vec<V> {
     let n = match rng.below(24) { 0 => 0, 1 | 2 => 1, 3 => 16, 4 => 17, 5 => 15 + rng.below(30), _ => 1 + rng.below(6) } as usize;
     (0..n).map(|_| { let k = rng.below(nvariants); g_value_of(rng, k, zero_floats) }).collect()
@@ -687,7 +686,7 @@ fn gen(a: &Args) {
     let per_variant = if th { 200 } else { 25 };
     for k in 0..19u64 {
         for _ in 0..per_variant {
-            let v = g_value_of(&mut rng, k, false);
+            let v = g_value_of(&mut rng, k, true);
             let n = rng.below(4) as usize; let pre = rng.bytes(n);
             let n = rng.below(4) as usize; let tail = rng.bytes(n);
             emit_ser(&mut w, &pre, &[vec![v]], &tail, "single_variant");
@@ -707,7 +706,7 @@ fn gen(a: &Args) {
     // ---- mixed rows, sequences of rows in one buffer
     let n_rows = if th { 9_000 } else { 1_000 };
     for i in 0..n_rows {
-        let zero_ok = i % 10 == 0;      // <= 10% of the cases may fall into the recorded class
+        let zero_ok = true;             // +-0.0 is an ordinary value since /repo commit a939896 (was finding F-C33-1)
         let nr = match rng.below(6) { 0 => 1, 1 => 2, 2 => 3, _ => 1 + rng.below(5) } as usize;
         let rows: Vec<Vec<V>> = (0..nr).map(|_| g_row(&mut rng, 19, zero_ok)).collect();
         let n = if rng.chance(1, 2) { 0 } else { rng.below(6) as usize }; let pre = rng.bytes(n);
@@ -767,7 +766,7 @@ fn gen(a: &Args) {
     let n_spill = if th { 1_000 } else { 100 };
     for i in 0..n_spill {
         let nr = rng.below(14) as usize;
-        let zero_ok = i % 8 == 0;
+        let zero_ok = true;
         let rows: Vec<Vec<V>> = (0..nr).map(|_| g_row(&mut rng, 19, zero_ok)).collect();
         let budget = match rng.below(5) { 0 => 0, 1 => 1 + rng.below(40), 2 => 10_000_000, _ => 20 + rng.below(600) } as usize;
         let kind = if has_zero_float(&rows) { "spiller_with_zero_float" } else { "partition_spiller" };
